@@ -30,7 +30,7 @@ def p_trace(manager, pot):
     return True, ""
 
 
-def pipeline(spec, cfg, solve=True):
+def pipeline(spec, cfg, solve=True, after_build=None):
     """Run set-up, hydrodynamics, LTE and (optionally) the wall solve.  Dimensionful
     outputs are returned raw; the caller rescales."""
     out = {"stage": "setup"}
@@ -56,7 +56,7 @@ def pipeline(spec, cfg, solve=True):
 
     real_opt.minimize = counting_minimize
     try:
-        return _pipeline(spec, cfg, solve, out, stats)
+        return _pipeline(spec, cfg, solve, out, stats, after_build)
     finally:
         real_opt.minimize = real_min
 
@@ -83,8 +83,11 @@ def table_spacing(fe, Tn):
     return out
 
 
-def _pipeline(spec, cfg, solve, out, stats):
+def _pipeline(spec, cfg, solve, out, stats, after_build=None):
     b = MG.build(spec, cfg, setup=False)
+    if after_build is not None:
+        # e.g. create further model instances that stay alive while this one is solved
+        after_build()
     out["minimiser"] = stats
     m, pot, Tn = b["manager"], b["pot"], b["Tn"]
     out["_pot"] = pot
